@@ -8,24 +8,21 @@ abstracted state, so the theorems about all interleavings cover everything the s
 namespace Mockery.Sem.Conc
 
 structure XSt where
-  log : List (List Nat)
-  hist : List (List Nat)
+  log : Loc → List Nat
+  hist : Loc → List Nat
   th : List Thread
 
 def idle : Thread := ⟨[], [], .none, false⟩
 
 def XSt.thread (s : XSt) (i : Nat) : Thread := s.th.getD i idle
-def XSt.logOf (s : XSt) (m : Nat) : List Nat := s.log.getD m []
-def XSt.histOf (s : XSt) (m : Nat) : List Nat := s.hist.getD m []
+def XSt.logOf (s : XSt) (m : Nat) : List Nat := s.log m
+def XSt.histOf (s : XSt) (m : Nat) : List Nat := s.hist m
 
 /-- the abstraction to the state space of `Step` -/
-def XSt.abs (s : XSt) : St := ⟨s.logOf, s.histOf, s.thread⟩
+def XSt.abs (s : XSt) : St := ⟨s.log, s.hist, s.thread⟩
 
 def freeB (s : XSt) (m : Loc) : Bool := s.th.all (fun t => t.held != .w m && t.held != .r m)
 def noWriterB (s : XSt) (m : Loc) : Bool := s.th.all (fun t => t.held != .w m)
-
-def setAt {α : Type} (l : List α) (i : Nat) (v : α) (dflt : α) : List α :=
-  if i < l.length then l.set i v else l ++ List.replicate (i - l.length) dflt ++ [v]
 
 /-- one step of thread `i`, if it has one and is not blocked -/
 def xstep (s : XSt) (i : Nat) : Option XSt :=
@@ -41,12 +38,12 @@ def xstep (s : XSt) (i : Nat) : Option XSt :=
       if t.held = .none ∧ noWriterB s m then some { s with th := s.th.set i { t with cont := rest, held := .r m, loaded := false } } else none
     | .runlock m :: rest =>
       if t.held = .r m then some { s with th := s.th.set i { t with cont := rest, held := .none, loaded := false } } else none
-    | .load m :: rest => some { s with th := s.th.set i { t with cont := rest, tmp := s.logOf m, loaded := true } }
+    | .load m :: rest => some { s with th := s.th.set i { t with cont := rest, tmp := s.log m, loaded := true } }
     | .storeApp m x :: rest =>
-      some { log := setAt s.log m (t.tmp ++ [x]) [], hist := setAt s.hist m (s.histOf m ++ [x]) [],
+      some { log := upd s.log m (t.tmp ++ [x]), hist := upd s.hist m (s.hist m ++ [x]),
              th := s.th.set i { t with cont := rest, loaded := false } }
     | .storeNil m :: rest =>
-      some { log := setAt s.log m [] [], hist := setAt s.hist m [] [],
+      some { log := upd s.log m [], hist := upd s.hist m [],
              th := s.th.set i { t with cont := rest, loaded := false } }
     | .snap _ :: rest => some { s with th := s.th.set i { t with cont := rest } }
     | .loc :: rest => some { s with th := s.th.set i { t with cont := rest } }
